@@ -305,10 +305,15 @@ class DBStorage(BaseStorage):
                 for tag in event.tags:
                     name = tag[0]
                     if name == "e":
-                        event_id = tag[1]
+                        try:
+                            event_id = tag[1]
+                            referenced = bytes.fromhex(event_id)
+                        except (IndexError, ValueError):
+                            # not a reference to an event: nothing to delete
+                            continue
                         query = sa.delete(self.EventTable).where(
                             (self.EventTable.c.pubkey == bytes.fromhex(event.pubkey))
-                            & (self.EventTable.c.id == bytes.fromhex(event_id))
+                            & (self.EventTable.c.id == referenced)
                         )
                         await conn.execute(query)
                         self.log.info("Deleted event %s", event_id)
